@@ -112,7 +112,7 @@ PROPS['C09'] = {
     'level': 'proof', 'verus': ['core_step', 'bus', 'timer', 'codecache'], 'kani': ['jit:frame'], 'also_counts': ['C02'], 'trusted_base': _CORE_TB, 'design_ref': 'DESIGN.md 5.9',
     'technique': 'Verus contracts: get_consumed_cycles, to_clock_cycles, run_interp, update, MemoryAreas::run_clock_cycles, IO::run_clock_cycles, Timer::run_cycles (devices advance by exactly 4 x consumed)',
     'level_text': 'Per step (instruction-stepped build): the devices receive catchup_post(mem, 4 * cycles) where cycles = the instruction\'s machine cycles (>= 1) plus the 5 pending from a previous dispatch; the timer view advances by exactly that many clocks (run), the LCD by video_after of the same count, DMA by count/4 bytes; catch-up happens before interrupts are sampled; a dispatch leaves exactly 5 cycles pending; a halted step delivers 4 clocks.',
-    'level_note': 'Core::run_frame (instruction-stepped build) is proved to terminate: every update() advances the LCD position by k machine cycles with 1 <= k <= 14, so the clocks-to-VBlank / clocks-to-end-of-VBlank variants strictly decrease (one assume(): the guest keeps PC inside executable memory). The explicit bound "two frame periods plus one block" is not proved. Block-stepped (jit) accounting: the jit variant of Core::run_code_block (unit codecache) delivers 4 x the block\'s cycle count, and the Kani harness j_frame (the C02 checks of the translated prologue / block epilogue, counted here) shows that a translated block starts from the pending cycle count (the 5 cycles of a dispatch) and stores the accumulated count back; per-instruction cycle counts inside a block are C02.',
+    'level_note': 'Core::run_frame (instruction-stepped build) is proved to terminate: every update() advances the LCD position by k machine cycles with 1 <= k <= 14, so the clocks-to-VBlank / clocks-to-end-of-VBlank variants strictly decrease (one assume(): the guest keeps PC inside executable memory). The explicit bound is proved with a ghost clock: run_frame delivers at most 144*456 + 56 + 10*456 + 56 = 70336 LCD clocks (one frame period plus two instructions), well inside "two frame periods plus one block". Block-stepped (jit) accounting: the jit variant of Core::run_code_block (unit codecache) delivers 4 x the block\'s cycle count, and the Kani harness j_frame (the C02 checks of the translated prologue / block epilogue, counted here) shows that a translated block starts from the pending cycle count (the 5 cycles of a dispatch) and stores the accumulated count back; per-instruction cycle counts inside a block are C02.',
     'assumptions': ['one catch-up batch <= 0xffff0000 clocks'],
 }
 
